@@ -51,6 +51,29 @@ SITES = {
 }
 TIMEOUT = 900
 
+# ordered calls the model assumes (actor and grain variants of the same CAS protocol); re-extracted on every run
+FACTS = [
+    {"file": "actor/pid.go",
+     "suffixes": "schedState.*,mailbox.Enqueue,systemMailbox.Enqueue,mailbox.IsEmpty,systemMailbox.IsEmpty,mailbox.Dequeue,systemMailbox.Dequeue,dispatcher.schedule,w.reschedule",
+     "expect": {
+         "PID.doReceive": ["systemMailbox.Enqueue", "mailbox.Enqueue", "schedState.TrySchedule", "dispatcher.schedule"],
+         "PID.runTurn": ["schedState.TakeForProcessing", "systemMailbox.Dequeue", "mailbox.Dequeue", "schedState.YieldToScheduled", "w.reschedule"],
+         "PID.finishOrReclaim": ["schedState.reset", "mailbox.IsEmpty", "systemMailbox.IsEmpty", "schedState.TrySchedule", "schedState.TakeForProcessing"],
+         "restartSubtree": ["schedState.Load"],
+     }},
+    {"file": "actor/grain_pid.go",
+     "suffixes": "schedState.*,mailbox.Enqueue,queue.Enqueue,mailbox.IsEmpty,mailbox.Dequeue,responses.IsEmpty,responses.Dequeue,dispatcher.schedule,w.reschedule,pid.hasPendingWork,pid.dequeueResponse",
+     "expect": {
+         "grainPID.receive": ["mailbox.Enqueue", "schedState.TrySchedule", "dispatcher.schedule"],
+         "grainPID.enqueueEnvelope": ["queue.Enqueue", "schedState.TrySchedule", "dispatcher.schedule"],
+         "grainPID.deliverTimerTick": ["mailbox.Enqueue", "schedState.TrySchedule", "dispatcher.schedule"],
+         "grainPID.enqueuePassivationPill": ["mailbox.Enqueue", "schedState.TrySchedule", "dispatcher.schedule"],
+         "grainPID.runTurn": ["schedState.TakeForProcessing", "pid.dequeueResponse", "mailbox.Dequeue", "schedState.YieldToScheduled", "w.reschedule"],
+         "grainPID.finishOrReclaim": ["schedState.reset", "pid.hasPendingWork", "schedState.TrySchedule", "schedState.TakeForProcessing"],
+         "grainPID.hasPendingWork": ["responses.IsEmpty", "mailbox.IsEmpty"],
+     }},
+]
+
 
 def one_case(rng, restart_p=0.15, maxsched=110):
     nw = rng.randint(1, 3)
@@ -85,7 +108,7 @@ def one_case(rng, restart_p=0.15, maxsched=110):
 
 
 def gen_cases(rng, tier):
-    n = 120 if tier == "quick" else 2500
+    n = 70 if tier == "quick" else 2500
     return [one_case(rng) for _ in range(n)]
 
 
